@@ -6,7 +6,7 @@ import sys
 from core import REPO
 
 
-def run_cli(args, env=None):
+def run_cli(args, env=None, cwd=None):
 	"""In-process. Returns (exit_code, stdout, stderr, exception).
 
 	NOTE `gambit query` must always be given `-o FILE` here: its `-o` default is the sys.stdout object captured at
@@ -15,7 +15,13 @@ def run_cli(args, env=None):
 	from click.testing import CliRunner
 	from gambit.cli import cli
 	runner = CliRunner()
-	r = runner.invoke(cli, [str(a) for a in args], env=env, catch_exceptions=True)
+	old = os.getcwd()
+	if cwd is not None:
+		os.chdir(cwd)
+	try:
+		r = runner.invoke(cli, [str(a) for a in args], env=env, catch_exceptions=True)
+	finally:
+		os.chdir(old)
 	try:
 		err = r.stderr
 	except Exception:
